@@ -30,8 +30,8 @@ READS = ["*.read", "*.read_ctx", "*.contains", "*.iter", "*.get", "*.keys", "*.v
          "*.clock", "*.position", "*.num_nodes", "*.num_orphans", "*.node", "*.children", "*.parents"]
 
 
-def P(types, footprint, quick=1000, thorough=20000, streams=("structured", "malformed"), all_inputs=False, extra_tb=(), extra_as=(), undischarged=()):
-    return dict(types=list(types), streams=list(streams), all_inputs=all_inputs, footprint=list(footprint),
+def P(types, footprint, quick=1000, thorough=20000, streams=("structured", "malformed"), all_inputs=False, extra_tb=(), extra_as=(), undischarged=(), exact=()):
+    return dict(types=list(types), streams=list(streams), all_inputs=all_inputs, footprint=list(footprint), exact=list(exact),
                 quick_cases=quick, thorough_cases=thorough, trusted_base=TB_COMMON + list(extra_tb),
                 assumptions=AS_COMMON + list(extra_as), undischarged=list(undischarged))
 
@@ -51,11 +51,11 @@ PROPS = {
     "C08": P(["orswot", "mvreg", "mapmv", "mapor", "mapmm", "gcounter", "pncounter", "gset", "glist", "merkle", "list"], CONV_FP + ["*.reset"], quick=500, streams=("structured",),
              extra_as=["each actor's ops delivered in issue order, otherwise arbitrary"] + MAP_AS),
     "C09": P(ALL_REPL, CONV_FP + ["*.reset"], quick=500, streams=("structured",), extra_as=MAP_AS),
-    "C16": P(["vclock", "orswot", "list", "merkle", "lww", "mapmv", "mapor", "mapmm"], ["*.validate_op", "*.apply"] + API_GEN, quick=600, streams=("structured",),
+    "C16": P(["vclock", "orswot", "list", "merkle", "lww", "mapmv", "mapor", "mapmm"], ["*.validate_op", "*.apply"] + API_GEN, quick=600, streams=("structured", "malformed"), exact=["*.validate_op"],
              extra_as=["Map::validate_op violates this property on the unchanged tree: known finding K1"]),
-    "C17": P(["orswot", "lww", "mapmv", "mapor", "mapmm"], ["*.validate_merge", "*.apply", "*.merge"] + API_GEN, quick=600, streams=("structured", "malformed"),
+    "C17": P(["orswot", "lww", "mapmv", "mapor", "mapmm"], ["*.validate_merge", "*.apply", "*.merge"] + API_GEN, quick=600, streams=("structured", "malformed"), exact=["*.validate_merge"],
              extra_as=["Orswot::validate_merge rejects correct use of add_all: known finding K2"]),
-    "C19": P(ALL_REPL, ["serde"], quick=500, streams=("structured",),
+    "C19": P(ALL_REPL, ["serde", "serde.op"], quick=500, streams=("structured",), exact=["serde", "serde.op"],
              extra_tb=["serde derive + serde_json modelled by coq/model/Serde.v (JSON tree; integer map keys abstracted as KNum; 32-byte hashes as one number); tied to the real crates by comparing real serde_json output with enc/dec on every sampled state"],
              extra_as=["REFUTED for states holding a pending remove (K3)", "u64 ranges not modelled"]),
     "C20": P(ALL_REPL, CONV_FP + ["*.reset", "mvreg.eq"], quick=500, streams=("structured",), extra_as=MAP_AS),
@@ -79,13 +79,13 @@ PROPS = {
              extra_as=["ops are delivered in causal order (the documented contract of List); duplicates allowed", "ops are generated through insert_index / append / delete_index"]),
     "C13": P(["list", "glist"], ["list.*", "glist.*", "ident.*"], all_inputs=True,
              extra_as=["states satisfy the representation invariant (strictly sorted, no empty identifier): proved for every state reachable by applying ops with non-empty identifiers; the API never produces an empty identifier"]),
-    "C14": P(["glist"], ["ident.*"], all_inputs=True, quick=1500,
+    "C14": P(["glist"], ["ident.*"], all_inputs=True, quick=1500, exact=["ident.cmp", "ident.eq"],
              extra_tb=["BigRational modelled as Coq's Qc (canonical rationals); num-rational arithmetic trusted"],
              extra_as=["the marker type's Ord is a total order consistent with equality (proved for u64 and OrdDot)"]),
     "C15": P(["merkle"], ["merkle.*"], all_inputs=True,
              extra_tb=["SHA3-256 content addressing modelled as an arbitrary injective function (premise of the theorems, no axiom); the driver maps real hashes to fresh model hashes"],
              extra_as=["distinct nodes have distinct hashes (collision-freedom of SHA3)"]),
     "C18": P(["vclock", "gcounter", "pncounter", "mvreg", "orswot", "mapmv", "mapor", "mapmm"],
-             ["*.reset", "vclock.clone_without"], all_inputs=False,
+             ["*.reset", "vclock.clone_without"], all_inputs=False, exact=["*.reset", "vclock.clone_without"],
              extra_as=["states are well-formed (no stored zero, no stored empty witness clock, witness clocks below the top clock): proved for reachable Orswot states; assumed for Map states, where it is checked by the monitor on every sampled state"]),
 }
